@@ -297,3 +297,15 @@ def late_future(rng, atoms, depth=1):
         else:
             f = (rng.choice(['seqprev', 'seqwprev']), f, ('atom', rng.choice(atoms)))
     return f
+
+
+def revisit_family(atom='a'):
+    """fixed family: a chain of next operators whose tail is still pending (n-fold next beyond the horizon) below a past operator, so that the
+    same (sub-formula, state) is first translated when its target state exists already and is reached again at later solving steps / through a
+    second parent, while its argument is still a placeholder"""
+    q = ('atom', atom)
+    chains = [('next', None, ('next', 2, q)), ('next', None, ('next', None, q)), ('next', None, ('next', None, ('next', None, q))), ('next', 2, ('next', 2, q)),
+              ('wnext', None, ('next', 2, q)), ('next', None, ('wnext', 2, q)), ('until', None, ('next', 2, q)), ('next', None, ('release', None, ('next', None, q)))]
+    past = [lambda g: ('prev', None, g), lambda g: ('prev', 2, g), lambda g: ('wprev', None, g), lambda g: ('since', None, g), lambda g: ('trigger', None, g), lambda g: ('initially', g),
+            lambda g: ('or', ('prev', None, g), ('prev', 2, g)), lambda g: ('and', ('wprev', None, g), ('prev', None, ('wprev', None, g)))]
+    return [w(c) for c in chains for w in past]
